@@ -1251,3 +1251,161 @@ func (fc *fsCtx) ruleCreateResult(r *Report, im *fsImpl, df string) {
 		r.Unknown("R12c", im.Name+".Create result", f.Pos(), fmt.Sprintf("%d places fix Create's boolean result under a fact about the name's existence (both outcomes expected)", n))
 	}
 }
+
+// rootParamDeps: the parameters of the root method f that the value v (in function g, which is f or a helper f
+// calls directly) depends on. Helper parameters are mapped to what f passes for them.
+func (p *Prog) rootParamDeps(v ssa.Value, g, f *ssa.Function) map[string]bool {
+	d := paramDeps(v)
+	if g == f {
+		return d
+	}
+	out := map[string]bool{}
+	p.instrs(f, func(b *ssa.BasicBlock, i int, in ssa.Instruction) {
+		c, ok := in.(*ssa.Call)
+		if !ok || calleeOf(&c.Call) != g {
+			return
+		}
+		for hp := range d {
+			for pi, pa := range g.Params {
+				if pa.Name() == hp && pi < len(c.Call.Args) {
+					for n := range paramDeps(c.Call.Args[pi]) {
+						out[n] = true
+					}
+				}
+			}
+		}
+	})
+	return out
+}
+
+// ruleLinkRoles (R12e): Link(oldDir, oldName, newDir, newName) — the parameter order is fixed by the exported
+// Filesys interface. In memory the inode is looked up under (oldDir, oldName) and entered under (newDir, newName);
+// in the directory implementation linkat's source path is built from the old pair and its target from the new pair.
+func (fc *fsCtx) ruleLinkRoles(r *Report, mem, dir *fsImpl) {
+	p := fc.p
+	sameSet := func(d map[string]bool, want ...string) bool {
+		if len(d) != len(want) {
+			return false
+		}
+		for _, w := range want {
+			if !d[w] {
+				return false
+			}
+		}
+		return true
+	}
+	if f := mem.Methods["Link"]; f != nil && len(f.Params) == 5 {
+		df := fc.direntField(mem)
+		oD, oN, nD, nN := f.Params[1].Name(), f.Params[2].Name(), f.Params[3].Name(), f.Params[4].Name()
+		okL, okU, nL, nU := true, true, 0, 0
+		for _, g := range p.region([]*ssa.Function{f}) {
+			if g != f && !fc.helperScope(mem)[g] {
+				continue
+			}
+			p.instrs(g, func(b *ssa.BasicBlock, i int, in ssa.Instruction) {
+				switch x := in.(type) {
+				case *ssa.Lookup:
+					if fld, ok := fc.mapFieldOf(mem, x.X); ok && fld == df && x.CommaOk {
+						if g != f {
+							// a lookup helper: each call of it from Link is one lookup, with that call's operands
+							p.instrs(f, func(b2 *ssa.BasicBlock, i2 int, in2 ssa.Instruction) {
+								c, ok := in2.(*ssa.Call)
+								if !ok || calleeOf(&c.Call) != g {
+									return
+								}
+								d := map[string]bool{}
+								for hp := range paramDeps(x.Index) {
+									for pi, pa := range g.Params {
+										if pa.Name() == hp && pi < len(c.Call.Args) {
+											for n := range paramDeps(c.Call.Args[pi]) {
+												d[n] = true
+											}
+										}
+									}
+								}
+								delete(d, f.Params[0].Name())
+								usesVal := false
+								if g.Signature.Results().Len() == 2 {
+									// a pure lookup helper: what the caller does with the value decides
+									for _, rf := range refs(c) {
+										if ex, ok := rf.(*ssa.Extract); ok && ex.Index == 0 && len(refs(ex)) > 0 {
+											usesVal = true
+										}
+									}
+								} else {
+									// the helper is Link's body: the lookup's own value decides
+									for _, rf := range refs(x) {
+										if ex, ok := rf.(*ssa.Extract); ok && ex.Index == 0 && len(refs(ex)) > 0 {
+											usesVal = true
+										}
+									}
+								}
+								if usesVal {
+									nL++
+									if !sameSet(d, oD, oN) {
+										okL = false
+									}
+								} else if !sameSet(d, nD, nN) {
+									okU = false
+								}
+							})
+							return
+						}
+						d := p.rootParamDeps(x.Index, g, f)
+						delete(d, f.Params[0].Name())
+						if len(d) == 0 {
+							return // a helper called with other operands too; judged by the update below
+						}
+						// the lookup whose value is used finds the inode of the old name; a pure existence test
+						// (only the ok result is used) asks whether the new name is taken
+						usesVal := false
+						for _, rf := range refs(x) {
+							if ex, ok := rf.(*ssa.Extract); ok && ex.Index == 0 && len(refs(ex)) > 0 {
+								usesVal = true
+							}
+						}
+						if usesVal {
+							nL++
+							if !sameSet(d, oD, oN) {
+								okL = false
+							}
+						} else if !sameSet(d, nD, nN) {
+							okU = false
+						}
+					}
+				case *ssa.MapUpdate:
+					if fld, ok := fc.mapFieldOf(mem, x.Map); ok && fld == df {
+						d := p.rootParamDeps(x.Key, g, f)
+						delete(d, f.Params[0].Name())
+						nU++
+						if !sameSet(d, nD, nN) {
+							okU = false
+						}
+					}
+				}
+			})
+		}
+		r.Check("R12e", mem.Name+".Link looks the inode up under (oldDir, oldName)", f.Pos(), nL > 0 && okL, "the directory lookup of Link is not keyed by exactly its first pair of parameters")
+		r.Check("R12e", mem.Name+".Link enters the name under (newDir, newName)", f.Pos(), nU > 0 && okU, "the directory entry Link adds is not keyed by exactly its second pair of parameters")
+	}
+	if f := dir.Methods["Link"]; f != nil && len(f.Params) == 5 {
+		oD, oN, nD, nN := f.Params[1].Name(), f.Params[2].Name(), f.Params[3].Name(), f.Params[4].Name()
+		ok, n := true, 0
+		for _, g := range p.region([]*ssa.Function{f}) {
+			if g != f && !fc.helperScope(dir)[g] {
+				continue
+			}
+			p.instrs(g, func(b *ssa.BasicBlock, i int, in ssa.Instruction) {
+				c, name, isU := unixCall(in)
+				if !isU || name != "Linkat" || len(c.Call.Args) < 4 {
+					return
+				}
+				n++
+				if !sameSet(p.rootParamDeps(c.Call.Args[1], g, f), oD, oN) || !sameSet(p.rootParamDeps(c.Call.Args[3], g, f), nD, nN) {
+					ok = false
+				}
+			})
+		}
+		r.Check("R12e", dir.Name+".Link links (oldDir, oldName) to (newDir, newName)", f.Pos(), n > 0 && ok, "linkat's source path must be built from the first pair of parameters and its target from the second")
+	}
+}
